@@ -50,3 +50,182 @@ Qed.
 (* the lock itself is exclusive: a writer excludes every other holder *)
 Theorem writer_excludes s t : LkReachable s -> writer s = Some t -> readers s = [].
 Proof. intros [es R] H. assert (I : LkInv s) by (eapply lkrun_inv; [apply lkinit_inv | exact R]). apply (I t H). Qed.
+
+(* ---------------------------------------------------------------- ordering through the lock
+   Any two conflicting accesses by different threads in a trace that follows the discipline are
+   separated by a release of the lock by the first thread and a later acquisition by the second,
+   at least one of the two in exclusive mode — exactly the pairs the Go memory model orders
+   (sync.Mutex / sync.RWMutex: "the n-th Unlock is synchronized before the m-th Lock returns",
+   RUnlock before the next Lock, Unlock before later RLocks). So the accesses are ordered by
+   happens-before in every execution that produces such a trace: no data race on a location
+   whose every access follows the discipline. *)
+
+Lemma lkrun_app a : forall s b, lkrun s (a ++ b) = match lkrun s a with Some s1 => lkrun s1 b | None => None end.
+Proof.
+  induction a as [|e a IH]; intros s b; cbn; [reflexivity|].
+  destruct (lkstep s e); [apply IH|reflexivity].
+Qed.
+
+Lemma remove_one_keeps t t1 : forall l r, remove_one t l = Some r -> t <> t1 ->
+  existsb (Nat.eqb t1) r = existsb (Nat.eqb t1) l.
+Proof.
+  induction l as [|x l IH]; intros r H Ne; cbn in *; [discriminate|].
+  destruct (Nat.eqb_spec x t).
+  - inversion H; subst. destruct (Nat.eqb_spec t1 t); [congruence|reflexivity].
+  - destruct (remove_one t l) as [r'|] eqn:E; [|discriminate]. inversion H; subst. cbn.
+    rewrite (IH r' eq_refl Ne). reflexivity.
+Qed.
+
+Lemma existsb_eqb_in t l : existsb (Nat.eqb t) l = true -> l <> [].
+Proof. destruct l; [discriminate|discriminate]. Qed.
+
+(* a thread that does not hold the lock in write mode and later does has taken LLock *)
+Lemma becomes_writer t2 mid : forall s s',
+  is_writer s t2 = false -> lkrun s mid = Some s' -> is_writer s' t2 = true ->
+  exists a c, mid = a ++ LLock t2 :: c.
+Proof.
+  induction mid as [|e mid IH]; intros s s' Nw R W; cbn in R.
+  - inversion R; subst. congruence.
+  - destruct (lkstep s e) as [s1|] eqn:E; [|discriminate].
+    destruct (is_writer s1 t2) eqn:W1.
+    + (* e made t2 the writer *)
+      destruct e; cbn in E.
+      * destruct (writer s); [discriminate|]. destruct (readers s); [|discriminate]. inversion E; subst.
+        unfold is_writer in W1; cbn in W1. apply Nat.eqb_eq in W1. subst. exists [], mid. reflexivity.
+      * destruct (is_writer s t); [|discriminate]. inversion E; subst. discriminate.
+      * destruct (writer s) eqn:Ws; [discriminate|]. inversion E; subst. discriminate.
+      * destruct (remove_one t (readers s)); [|discriminate]. inversion E; subst.
+        unfold is_writer in *; cbn in *. congruence.
+      * destruct (_ || _); [|discriminate]. inversion E; subst. congruence.
+      * destruct (is_writer s t); [|discriminate]. inversion E; subst. congruence.
+    + destruct (IH s1 s' W1 R W) as [a [c H]]. exists (e :: a), c. now rewrite H.
+Qed.
+
+(* a thread that does not hold the lock and later does has acquired it *)
+Lemma becomes_holder t2 mid : forall s s',
+  holds s t2 = false -> lkrun s mid = Some s' -> holds s' t2 = true ->
+  exists a q c x, mid = a ++ q :: c /\ acquire_by t2 q x.
+Proof.
+  induction mid as [|e mid IH]; intros s s' Nh R H; cbn in R.
+  - inversion R; subst. congruence.
+  - destruct (lkstep s e) as [s1|] eqn:E; [|discriminate].
+    destruct (holds s1 t2) eqn:H1.
+    + unfold holds in Nh. apply orb_false_iff in Nh. destruct Nh as [Nw Nr].
+      destruct e; cbn in E.
+      * destruct (writer s); [discriminate|]. destruct (readers s); [|discriminate]. inversion E; subst.
+        unfold holds, is_writer, is_reader in H1; cbn in H1. rewrite orb_false_r in H1. apply Nat.eqb_eq in H1. subst.
+        exists [], (LLock t2), mid, true. split; [reflexivity|cbn; auto].
+      * destruct (is_writer s t); [|discriminate]. inversion E; subst.
+        unfold holds, is_writer, is_reader in *; cbn in *. congruence.
+      * destruct (writer s) eqn:Ws; [discriminate|]. inversion E; subst.
+        unfold holds, is_writer, is_reader in *; cbn in *. rewrite Ws in *. cbn in H1.
+        rewrite Nr, orb_false_r in H1. apply Nat.eqb_eq in H1. subst.
+        exists [], (LRLock t), mid, false. split; [reflexivity|cbn; auto].
+      * destruct (remove_one t (readers s)) as [r|] eqn:Rm; [|discriminate]. inversion E; subst.
+        unfold holds, is_writer, is_reader in *; cbn in *. rewrite Nw in H1. cbn in H1.
+        destruct (Nat.eq_dec t t2) as [->|Ne].
+        -- (* t2 released a read lock it did not hold: impossible *)
+           exfalso. clear -Rm Nr. revert r Rm. induction (readers s) as [|x l IHl]; intros r Rm; cbn in *; [discriminate|].
+           apply orb_false_iff in Nr. destruct Nr as [Nx Nl].
+           destruct (Nat.eqb_spec x t2); [subst; rewrite Nat.eqb_refl in Nx; discriminate|].
+           destruct (remove_one t2 l); [|discriminate]. eapply IHl; eauto.
+        -- rewrite (remove_one_keeps t t2 _ _ Rm Ne) in H1. congruence.
+      * destruct (_ || _); [|discriminate]. inversion E; subst. unfold holds in H1. rewrite Nw, Nr in H1. discriminate.
+      * destruct (is_writer s t); [|discriminate]. inversion E; subst. unfold holds in H1. rewrite Nw, Nr in H1. discriminate.
+    + destruct (IH s1 s' H1 R H) as [a [q [c [x [Hm Hq]]]]]. exists (e :: a), q, c, x. split; [now rewrite Hm|exact Hq].
+Qed.
+
+(* after a write-mode holder: it unlocks before anybody else holds the lock *)
+Lemma writer_then_other t1 t2 mid : forall s s',
+  LkInv s -> writer s = Some t1 -> t1 <> t2 -> lkrun s mid = Some s' -> holds s' t2 = true ->
+  exists a b q c x, mid = a ++ LUnlock t1 :: b ++ q :: c /\ acquire_by t2 q x.
+Proof.
+  induction mid as [|e mid IH]; intros s s' I W Ne R H; cbn in R.
+  - injection R as <-. exfalso. pose proof (I t1 W) as Rs.
+    unfold holds, is_writer, is_reader in H. rewrite W, Rs in H. cbn in H. rewrite orb_false_r in H.
+    apply Nat.eqb_eq in H. congruence.
+  - destruct (lkstep s e) as [s1|] eqn:E; [|discriminate].
+    pose proof (lkstep_inv s e s1 I E) as I1. pose proof (I t1 W) as Rs.
+    destruct e; cbn in E.
+    + rewrite W in E. discriminate.
+    + unfold is_writer in E. rewrite W in E. destruct (Nat.eqb_spec t1 t); [subst t|discriminate]. inversion E; subst.
+      assert (Nh : holds {| writer := None; readers := readers s |} t2 = false).
+      { unfold holds, is_writer, is_reader; cbn. rewrite Rs. reflexivity. }
+      destruct (becomes_holder t2 mid _ s' Nh R H) as [b [q [c [x [Hm Hq]]]]].
+      exists [], b, q, c, x. split; [cbn; now rewrite Hm|exact Hq].
+    + rewrite W in E. discriminate.
+    + rewrite Rs in E. discriminate.
+    + destruct (_ || _); [|discriminate]. inversion E; subst.
+      destruct (IH s1 s' I W Ne R H) as [a [b [q [c [x [Hm Hq]]]]]]. exists (LRead t :: a), b, q, c, x. split; [now rewrite Hm|exact Hq].
+    + destruct (is_writer s t); [|discriminate]. inversion E; subst.
+      destruct (IH s1 s' I W Ne R H) as [a [b [q [c [x [Hm Hq]]]]]]. exists (LWrite t :: a), b, q, c, x. split; [now rewrite Hm|exact Hq].
+Qed.
+
+(* after a read-mode holder: it releases before anybody else holds the lock in write mode *)
+Lemma reader_then_writer t1 t2 mid : forall s s',
+  LkInv s -> is_reader s t1 = true -> t1 <> t2 -> lkrun s mid = Some s' -> is_writer s' t2 = true ->
+  exists a b c, mid = a ++ LRUnlock t1 :: b ++ LLock t2 :: c.
+Proof.
+  induction mid as [|e mid IH]; intros s s' I Rd Ne R W; cbn in R.
+  - injection R as <-. exfalso. unfold is_writer in W. destruct (writer s) as [x|] eqn:Ws; [|discriminate].
+    unfold is_reader in Rd. rewrite (I x Ws) in Rd. discriminate.
+  - destruct (lkstep s e) as [s1|] eqn:E; [|discriminate].
+    pose proof (lkstep_inv s e s1 I E) as I1.
+    assert (Wn : writer s = None).
+    { destruct (writer s) as [x|] eqn:Ws; [|reflexivity]. unfold is_reader in Rd. rewrite (I x Ws) in Rd. discriminate. }
+    assert (Keep : is_reader s1 t1 = true ->
+              exists a b c, e :: mid = a ++ LRUnlock t1 :: b ++ LLock t2 :: c).
+    { intros Rd1. destruct (IH s1 s' I1 Rd1 Ne R W) as [a [b [c Hm]]]. exists (e :: a), b, c. now rewrite Hm. }
+    destruct e; cbn in E.
+    + rewrite Wn in E. unfold is_reader in Rd. destruct (readers s); [discriminate|discriminate].
+    + unfold is_writer in E. rewrite Wn in E. discriminate.
+    + rewrite Wn in E. inversion E; subst. apply Keep. unfold is_reader in *; cbn. rewrite Rd. apply orb_true_r.
+    + destruct (remove_one t (readers s)) as [r|] eqn:Rm; [|discriminate]. inversion E; subst.
+      destruct (Nat.eq_dec t t1) as [->|Nt].
+      * destruct (is_reader {| writer := writer s; readers := r |} t1) eqn:Rd1; [now apply Keep|].
+        assert (Nw : is_writer {| writer := writer s; readers := r |} t2 = false).
+        { unfold is_writer; cbn. now rewrite Wn. }
+        destruct (becomes_writer t2 mid _ s' Nw R W) as [b [c Hm]].
+        exists [], b, c. cbn. now rewrite Hm.
+      * apply Keep. unfold is_reader in *; cbn. now rewrite (remove_one_keeps t t1 _ _ Rm Nt).
+    + destruct (_ || _); [|discriminate]. inversion E; subst. now apply Keep.
+    + destruct (is_writer s t); [|discriminate]. inversion E; subst. now apply Keep.
+Qed.
+
+Theorem conflicting_accesses_ordered_by_lock pre a1 mid a2 s t1 w1 t2 w2 :
+  lkrun lkinit (pre ++ a1 :: mid ++ [a2]) = Some s ->
+  acc_of a1 = Some (t1, w1) -> acc_of a2 = Some (t2, w2) ->
+  t1 <> t2 -> w1 || w2 = true ->
+  exists m1 r m2 q m3 xr xq,
+    mid = m1 ++ r :: m2 ++ q :: m3 /\ release_by t1 r xr /\ acquire_by t2 q xq /\ xr || xq = true.
+Proof.
+  intros R A1 A2 Ne Cw.
+  rewrite lkrun_app in R. destruct (lkrun lkinit pre) as [s0|] eqn:R0; [|discriminate].
+  assert (I0 : LkInv s0) by (eapply lkrun_inv; [apply lkinit_inv|exact R0]).
+  cbn in R. destruct (lkstep s0 a1) as [s0'|] eqn:E1; [|discriminate].
+  rewrite lkrun_app in R. destruct (lkrun s0' mid) as [s1|] eqn:Rm; [|discriminate].
+  cbn in R. destruct (lkstep s1 a2) as [s2|] eqn:E2; [|discriminate].
+  (* what the two accesses need *)
+  assert (H2 : holds s1 t2 = true /\ (w2 = true -> is_writer s1 t2 = true)).
+  { destruct a2; cbn in A2; try discriminate; inversion A2; subst; cbn in E2.
+    - unfold holds. destruct (_ || _); [|discriminate]. split; [reflexivity|discriminate].
+    - unfold holds. destruct (is_writer s1 t2); [|discriminate]. split; [reflexivity|reflexivity]. }
+  destruct H2 as [H2 W2].
+  assert (S0 : s0' = s0 /\ holds s0 t1 = true /\ (w1 = true -> is_writer s0 t1 = true)).
+  { destruct a1; cbn in A1; try discriminate; inversion A1; subst; cbn in E1.
+    - unfold holds. destruct (_ || _); [|discriminate]. inversion E1. repeat split; auto. discriminate.
+    - unfold holds. destruct (is_writer s0 t1); [|discriminate]. inversion E1. repeat split; auto. }
+  destruct S0 as [-> [H1 W1]].
+  destruct (is_writer s0 t1) eqn:Wr.
+  - (* t1 holds the lock exclusively at its access *)
+    assert (Ws : writer s0 = Some t1).
+    { unfold is_writer in Wr. destruct (writer s0) as [x|]; [|discriminate]. apply Nat.eqb_eq in Wr. now subst. }
+    destruct (writer_then_other t1 t2 mid s0 s1 I0 Ws Ne Rm H2) as [a [b [q [c [x [Hm Hq]]]]]].
+    exists a, (LUnlock t1), b, q, c, true, x. repeat split; auto.
+  - (* t1 only reads, under a read lock; so the second access writes *)
+    assert (w1 = false) by (destruct w1; [specialize (W1 eq_refl); discriminate|reflexivity]). subst w1.
+    cbn in Cw. subst w2. specialize (W2 eq_refl).
+    assert (Rd : is_reader s0 t1 = true) by (unfold holds in H1; rewrite Wr in H1; exact H1).
+    destruct (reader_then_writer t1 t2 mid s0 s1 I0 Rd Ne Rm W2) as [a [b [c Hm]]].
+    exists a, (LRUnlock t1), b, (LLock t2), c, false, true. repeat split; auto.
+Qed.
